@@ -1671,9 +1671,12 @@ impl<'input, T: Input> Scanner<'input, T> {
         }
 
         if self.mark.col < indent && (self.mark.col as isize) > self.indent {
-            // A document marker is not content: it ends the (empty) scalar.
+            // A document marker is not content: it ends the (empty) scalar. So does the end of
+            // the input.
             self.input.lookahead(4);
-            if !(self.mark.col == 0 && self.input.next_is_document_indicator()) {
+            if !self.input.next_is_z()
+                && !(self.mark.col == 0 && self.input.next_is_document_indicator())
+            {
                 return Err(ScanError::new_str(
                     self.mark,
                     "wrongly indented line in block scalar",
